@@ -28,6 +28,8 @@ def short(e, n=70):
         return "v"
     if k == "proj":
         fields = [f for f in e[2] if not f.startswith("as:") and not f.startswith("[")]
+        if e[1][0] == "bin" and e[1][1].endswith("WithOverflow") and fields[:1] == ["0"]:
+            fields = fields[1:]     # (a + b).0 of a checked operation is just a + b
         return short(e[1], n) + "".join("." + f for f in fields[-2:])
     if k == "call":
         seg = re.sub(r"<[^<>]*>", "", e[1]).split("::")[-1]
